@@ -183,7 +183,8 @@ def _argmax_batch_rule(
     axis_size = operand.shape[bdim]
     operand = batching.bdim_at_front(operand, bdim, axis_size)
 
-    shifted_axes = tuple(int(ax) + 1 for ax in axes)
+    slice_rank = operand.ndim - 1
+    shifted_axes = tuple(int(ax) % slice_rank + 1 for ax in axes)
     out = JnpArgmaxPlugin._PRIM.bind(
         operand,
         axes=shifted_axes,
